@@ -6,11 +6,15 @@ import (
 	_ "verifharness/props/c01"
 	_ "verifharness/props/c02"
 	_ "verifharness/props/c03"
+	_ "verifharness/props/c04"
 	_ "verifharness/props/c05"
 	_ "verifharness/props/c07"
+	_ "verifharness/props/c08"
 	_ "verifharness/props/c10"
 	_ "verifharness/props/c12"
+	_ "verifharness/props/c13"
 	_ "verifharness/props/c14"
+	_ "verifharness/props/c18"
 )
 
 func main() { lib.Main() }
